@@ -39,3 +39,49 @@ def dedupSorted (l : List String) : List String :=
     | [] => [x]) []
 
 end Driver
+
+namespace Driver
+
+/-- S-expressions of the line protocol: atoms are runs of characters other than `( ) ,`;
+lists are `(a,b,c)`; `()` is the empty list. No whitespace. -/
+inductive SExp where
+  | atom (s : String)
+  | list (l : List SExp)
+deriving Repr, Inhabited
+
+mutual
+partial def parseSExp : List Char → Option (SExp × List Char)
+  | '(' :: rest =>
+    match rest with
+    | ')' :: r => some (.list [], r)
+    | _ => parseItems rest []
+  | cs =>
+    let a := cs.takeWhile fun c => c ≠ '(' && c ≠ ')' && c ≠ ','
+    if a.isEmpty then none else some (.atom (String.ofList a), cs.drop a.length)
+partial def parseItems (cs : List Char) (acc : List SExp) : Option (SExp × List Char) :=
+  match parseSExp cs with
+  | none => none
+  | some (e, rest) =>
+    match rest with
+    | ',' :: r => parseItems r (acc ++ [e])
+    | ')' :: r => some (.list (acc ++ [e]), r)
+    | _ => none
+end
+
+def readSExp (s : String) : Option SExp :=
+  match parseSExp s.toList with
+  | some (e, []) => some e
+  | _ => none
+
+def SExp.atom? : SExp → Option String
+  | .atom s => some s
+  | _ => none
+
+def SExp.list? : SExp → Option (List SExp)
+  | .list l => some l
+  | _ => none
+
+def SExp.nat? (e : SExp) : Option Nat := e.atom? >>= String.toNat?
+def SExp.str? (e : SExp) : Option String := e.atom? >>= unhexStr
+
+end Driver
